@@ -64,7 +64,7 @@ def gen_cases(rng, tier):
     # the documented special names under every spelling of the ',a' option: one rule applies, always the same
     for is_fd in (True, False):
         cases.append({"medium": "disk", "is_fd": is_fd, "old": None, "sources": [{"arg": a, "content": {"pat": "31302050520d0a", "len": 30 + k}} for k, a in enumerate(["menu.bas", "auto.bat,a", "tools.bin"])]})
-        cases.append({"medium": "disk", "is_fd": is_fd, "old": None, "sources": [{"arg": a, "content": {"pat": "31302050520d0a", "len": 30 + k}} for k, a in enumerate(["AUTO.BAT,A", "--eos", "auto.bat", "--eos", "list.bas,a", "note.txt,a", "bin.bin,A"])]})
+        cases.append({"medium": "disk", "is_fd": is_fd, "old": None, "sources": [({"eos": a} if a == "--eos" else {"arg": a, "content": {"pat": "31302050520d0a", "len": 30 + k}}) for k, a in enumerate(["AUTO.BAT,A", "--eos", "auto.bat", "--eos", "list.bas,a", "note.txt,a", "bin.bin,A"])]})
     cases.append({"medium": "tape", "old": None, "sources": [{"arg": a, "content": {"pat": "31302050520d0a", "len": 30 + k}} for k, a in enumerate(["auto.bat", "list.bas,a", "d.csv", "x.bin"])]})
     twice = [{"arg": "x.bin", "content": {"pat": "41", "len": 300}}, {"arg": "y.bas", "content": {"pat": "42", "len": 10}}, {"arg": "x.bin", "content": {"pat": "41", "len": 300}}]
     cases.append({"medium": "tape", "sources": twice, "old": None})
